@@ -685,7 +685,7 @@ Definition ok_strict_acc (c : case) : bool := negb (ccastfree c && is_some (chec
 Definition rule_rejects (k : nat) (c : case) : bool := negb (is_some (check_block (only k) (cG c) (cb c))).
 Definition nr1 c := negb (rule_rejects 1 c).  Definition nr2 c := negb (rule_rejects 2 c).  Definition nr3 c := negb (rule_rejects 3 c).
 Definition nr4 c := negb (rule_rejects 4 c).  Definition nr5 c := negb (rule_rejects 5 c).  Definition nr6 c := negb (rule_rejects 6 c).
-Definition nr7 c := negb (rule_rejects 7 c).  Definition nr10 c := negb (rule_rejects 10 c).  Definition nr11 c := negb (rule_rejects 11 c).
+Definition nr7 c := negb (rule_rejects 7 c).  Definition nr10 c := negb (rule_rejects 10 c).  Definition nr11 c := negb (rule_rejects 11 c).  Definition nr13 c := negb (rule_rejects 13 c).
 '''
 
 
@@ -791,7 +791,7 @@ def check_cases(ctx, cases, section, lit_attr=None):
       ctx.note(f'{section}: block outside the front end ({c.tc[0]}): {c.tc[1][:160]}')
   if not live: return
   terms = [case_term(c) for c in live]
-  RULES = [1, 2, 3, 4, 5, 6, 7, 10, 11]
+  RULES = [1, 2, 3, 4, 5, 6, 7, 10, 13, 11]
   res = coq_multi(ctx, section, terms, ['ok_verdict', 'ok_runtime', 'ok_noerror', 'ok_strict', 'ok_mono', 'ok_strict_acc'] + [f'nr{k}' for k in RULES])
   rejecting = {i: [k for k in RULES if i in set(res[f'nr{k}'])] for i in range(len(live))}
   def cause_of(i):
@@ -819,9 +819,12 @@ def check_cases(ctx, cases, section, lit_attr=None):
                     f'accepted block: sub-expression {bad[0][0]}: {bad[0][1]} [cause {cause}] block:{c.body[-300:]}',
                     replay_of(c, {'cause': cause, 'all_rejecting_checks': rejecting[i], 'node': bad[0][0], 'detail': bad[0][1], 'inputs': bad[0][2]}))
   # --- model ties
+  ndiag = 0
   for i in res['ok_verdict']:
     c = live[i]
     if lit_attr is not None and lit_record(c): continue
+    ndiag += 1
+    if ndiag > 6: ctx.extra[f'{section}_more_verdict_mismatches'] = ndiag - 6; continue
     try: model = ctx.coq_eval(f'{section}_v', IMPORTS, DEFS, [f'check_block impl (cG {terms[i]}) (cb {terms[i]})'])[0]
     except Exception as e: model = repr(e)
     mw = [(int(a), b == 'true') for a, b in re.findall(r'\(\s*(\d+)\s*,\s*(true|false)\s*\)', model)] if model.startswith('Some') else None
@@ -832,7 +835,7 @@ def check_cases(ctx, cases, section, lit_attr=None):
     ctx.violation(f'C10:model-verdict:{hashlib.sha1(c.body.encode()).hexdigest()[:10]}',
                   f'type-checker model and real BehavioralRTLIRTypeCheckPass disagree: {detail} block:{c.body[-300:]}',
                   replay_of(c, {'model': model[:2000], 'detail': detail}), found_input=True)
-  for i in res['ok_runtime']:
+  for i in res['ok_runtime'][:6]:
     c = live[i]
     try: model = ctx.coq_eval(f'{section}_r', IMPORTS, DEFS, [f'map (fun r => model_run {terms[i]} (fst r)) (cruns {terms[i]})'])[0]
     except Exception as e: model = repr(e)
@@ -938,6 +941,7 @@ def directed_cases(ctx):
     ('S6 zext to 1024 bits',                    [A(0, ('lsig', o1, ()), ('red', 'ROr', ('zext', 1024, S(a))))]),
     ('S7 temporary explicit then int',          [('if', 0, bit0, [A(1, ('ltmp', 0), S(a2))], [A(2, ('ltmp', 0), L(3))]), A(3, ('lsig', o, ()), ('tmp', 0))]),
     ('S10 stale implicit branch',               [A(0, ('lsig', o2, ()), ('if', bit0, ('bin', 'Add', L(1), L(2)), S(a)))]),
+    ('S13 comparison result in an if-expression',  [A(0, ('lsig', o1, ()), ('if', ('index', S(a), L(1)), ('cmp', 'CEq', S(a), S(b)), L(5)))]),
     ('S11 literal re-enforced below its width',  [A(0, ('lsig', o1, ()), ('bin', 'Add', L(1), ('bin', 'Sub', L(0), ('bin', 'And', L(0), L(5)))))]),
     ('shift by narrower signal (exempt)',       [A(0, ('lsig', o, ()), ('bin', 'LShift', S(a), S(c4)))]),
     ('shift by too large literal (exempt)',     [A(0, ('lsig', o, ()), ('bin', 'LShift', S(a), L(300)))]),
@@ -979,7 +983,7 @@ def run(ctx):
   quick = ctx.tier == 'quick'
   literal_cases(ctx, 70 if quick else 80)
   directed_cases(ctx)
-  random_cases(ctx, 400 if quick else 4000, 6 if quick else 8)
+  random_cases(ctx, 400 if quick else 3000, 6 if quick else 8)
 
 def main(ctx):
   ctx.trusted += ['harness/c10.py prints the same block as Python source and as a Coq term (cross-checked on every block: the number and order of RTLIR nodes of the real tree must match the term)',
@@ -996,6 +1000,6 @@ def main(ctx):
   except Exception as e:
     ctx.note('correspondence crashed: ' + traceback.format_exc()[-1500:])
     ctx.violation('C10:harness-crash', f'correspondence could not run: {e!r}', {'traceback': traceback.format_exc()}, found_input=False)
-  return ctx.finish(rule='(1) literals 2^k-1,2^k,2^k+1 (k<=70/80) as a Number node, as a loop bound and against a k-bit signal; (2) 29 fixed blocks, one per checker rule / missing check; '
+  return ctx.finish(rule='(1) literals 2^k-1,2^k,2^k+1 (k<=70/80) as a Number node, as a loop bound and against a k-bit signal; (2) 30 fixed blocks, one per checker rule / missing check; '
                          '(3) random type-directed update blocks (1-4 statements, depth<=3, 2-4 inputs and 2-4 outputs of Bits/bitstruct type, wildness 0-25%) each run on 6-8 random inputs; '
                          'distinct = distinct block texts; all non-trivial (every block is type-checked by the real passes, simulated and probed)')
